@@ -99,7 +99,7 @@ fn record(ctx: &Ctx, sk: &Skeleton) {
 
 fn random_case(ctx: &Ctx, bytes: &[u8]) -> Outcome {
     let mut c = Choices::new(bytes);
-    let b = Bounds { max_levels: 4, names: 3, modes: 5 };
+    let b = Bounds { max_levels: 4, names: 3, modes: 5, actions: 4 };
     let sk = decode(&mut |n| c.below(n), &b);
     let forms = sk.program();
     record(ctx, &sk);
@@ -115,7 +115,7 @@ impl Prop for C02 {
         "C02"
     }
     fn rule(&self) -> &'static str {
-        "scope skeletons: nests of procedures over names a b c, each level binding each name as parameter / internal define / let variable / rest parameter or leaving it free, with probe reads and set! writes before and after the creation of the inner closure, the closure called inside its creator, after it returned, and in a second activation. Exhaustive up to the bound (quick: <=3 levels x 2 names x 3 modes x 4 placement patterns; thorough: <=3 levels x 3 names x 4 modes), random samples beyond (4 levels x 3 names x 5 modes), plus 8 fixed families (closures in loops, getter/setter, shared counters). Non-trivial: a name is bound at two levels (shadowing) or a captured variable is assigned after capture; distinct by skeleton id."
+        "scope skeletons: nests of procedures over names a b c, each level binding each name as parameter / internal define / let variable / rest parameter or leaving it free, with probe reads and set! writes before and after the creation of the inner closure, the closure called inside its creator, after it returned, and in a second activation. Per name and level an action (untouched / read / assigned before capture / assigned after capture). Exhaustive up to the bound (quick: <=2 levels x 2 names x 4 modes x 4 actions = 65,792 skeletons; thorough adds 5 modes, and 3 levels or 3 names with 3 modes x 2 actions), random samples beyond (4 levels x 3 names x 5 modes), plus 8 fixed families (closures in loops, getter/setter, shared counters). Non-trivial: a name is bound at two levels (shadowing) or a captured variable is assigned after capture; distinct by skeleton id."
     }
     fn assumptions(&self) -> Vec<&'static str> {
         vec![
@@ -128,31 +128,42 @@ impl Prop for C02 {
     }
     fn run(&self, ctx: &Ctx) {
         ctx.journal_bytes.set(true);
-        let b = ctx.tier.pick(
-            Bounds { max_levels: 3, names: 2, modes: 3 },
-            Bounds { max_levels: 3, names: 3, modes: 4 },
+        // exhaustive parts: (levels, names, modes, actions)
+        let parts: Vec<Bounds> = if ctx.tier == Tier::Quick {
+            vec![Bounds { max_levels: 2, names: 2, modes: 4, actions: 4 }]
+        } else {
+            vec![
+                Bounds { max_levels: 2, names: 2, modes: 5, actions: 4 },
+                Bounds { max_levels: 3, names: 2, modes: 3, actions: 2 },
+                Bounds { max_levels: 2, names: 3, modes: 3, actions: 2 },
+            ]
+        };
+        ctx.extra(
+            "exhaustive_bounds",
+            json!(parts.iter().map(|b| format!("levels<={} names={} modes={} actions={}", b.max_levels, b.names, b.modes, b.actions)).collect::<Vec<_>>()),
         );
-        ctx.extra("exhaustive_bound", json!(format!("levels<={} names={} modes={} patterns=4", b.max_levels, b.names, b.modes)));
-        let mut od = Odometer::new();
         let mut idx = 0usize;
-        loop {
-            od.start();
-            let sk = decode(&mut |n| od.choose(n), &b);
-            if idx % ctx.nshards == ctx.shard {
-                ctx.beat();
-                ctx.count(1);
-                record(ctx, &sk);
-                let forms = sk.program();
-                if idx % 2000 == ctx.shard {
-                    ctx.sample(|| json!({"skeleton": sk.id(), "program": render_session(&forms)}));
+        for b in &parts {
+            let mut od = Odometer::new();
+            loop {
+                od.start();
+                let sk = decode(&mut |n| od.choose(n), b);
+                if idx % ctx.nshards == ctx.shard {
+                    ctx.beat();
+                    ctx.count(1);
+                    record(ctx, &sk);
+                    let forms = sk.program();
+                    if idx % 3000 == ctx.shard {
+                        ctx.sample(|| json!({"skeleton": sk.id(), "program": render_session(&forms)}));
+                    }
+                    if let Some((sig, detail)) = check_program(&forms, false) {
+                        ctx.report("program", json!({"skeleton": sk.id(), "program": render_session(&forms)}), &sig, &detail);
+                    }
                 }
-                if let Some((sig, detail)) = check_program(&forms, false) {
-                    ctx.report("program", json!({"skeleton": sk.id(), "program": render_session(&forms)}), &sig, &detail);
+                idx += 1;
+                if !od.next() {
+                    break;
                 }
-            }
-            idx += 1;
-            if !od.next() {
-                break;
             }
         }
         ctx.extra_max("max_skeletons_enumerated", idx as u64);
@@ -167,7 +178,7 @@ impl Prop for C02 {
                 }
             }
         }
-        let cases = ctx.tier.pick(300u32, 12_000u32);
+        let cases = ctx.tier.pick(600u32, 12_000u32);
         ctx.run_bytes("random", cases, 64, random_case);
     }
     fn replay(&self, ctx: &Ctx, kind: &str, payload: &Value) -> Outcome {
